@@ -40,6 +40,16 @@ def long_options(prog, tf):
                     for m in walk(flag):
                         if m.get("kind") == "MemberExpr":
                             field = m.get("name")
+                    if field is None and flag.get("kind") == "UnaryOperator" and flag.get("opcode") == "&":
+                        # the target is a plain local that the function copies into the parsed-options field afterwards
+                        tgt = strip(kids(flag)[0], casts=True)
+                        if tgt.get("kind") == "DeclRefExpr" and (tgt.get("referencedDecl") or {}).get("kind") == "VarDecl":
+                            backs = [strip(kids(m)[0]).get("name") for m in walk(prog.body(f))
+                                     if m.get("kind") == "BinaryOperator" and m.get("opcode") == "=" and strip(kids(m)[0]).get("kind") == "MemberExpr" and
+                                     strip(kids(m)[1], casts=True).get("kind") == "DeclRefExpr" and
+                                     (strip(kids(m)[1], casts=True).get("referencedDecl") or {}).get("id") == tgt["referencedDecl"].get("id")]
+                            if len(set(backs)) == 1:
+                                field = backs[0]
                     val = ConstEval(prog).try_eval(cells[3])
                     rows[name] = {"field": field, "val": val, "val_ident": expr_str(cells[3]), "loc": loc_str(r)}
                 return fn, vd, rows
@@ -131,6 +141,7 @@ def helper_map(prog, tf, lib_setters):
 
 
 def run(chk, prog, tier):
+    _PROG[0] = prog
     tf = tool_functions(prog)
     if "main" not in tf:
         raise AnalysisBroken("tools/asmline.c: main not found")
@@ -360,7 +371,7 @@ def run(chk, prog, tier):
 
     class _Fresh:
         """did the statement containing a call that receives &var execute on this path since the loop iteration began?"""
-        def __init__(self, var): self.var, self.viol, self.nsum = var, [], 0
+        def __init__(self, var, fixed=None): self.var, self.viol, self.nsum, self.fixed, self.nwrite = var, [], 0, fixed or {}, 0
         def copy(self, s): return s
         def join(self, a, b): return a and b
         def equal(self, a, b): return a == b
@@ -373,27 +384,77 @@ def run(chk, prog, tier):
             e0 = strip(e)
             if not e0:
                 return s
+            if e0.get("kind") == "ConditionalOperator" and expr_str(strip(kids(e0)[0])) in self.fixed:
+                # a choice on a condition that does not change while the loop runs: only the arm of this world is executed
+                return self.eval(kids(e0)[1] if self.fixed[expr_str(strip(kids(e0)[0]))] else kids(e0)[2], s)
+            if e0.get("kind") in ("BinaryOperator", "ImplicitCastExpr", "ParenExpr", "CStyleCastExpr") or (e0.get("kind") == "VarDecl"):
+                pass
+            sub = [c_ for c_ in kids(e0) if strip(c_) and strip(c_).get("kind") == "ConditionalOperator" and
+                   expr_str(strip(kids(strip(c_))[0])) in self.fixed]
+            if sub:
+                for c_ in kids(e0):
+                    s = self.eval(c_, s)
+                return s
             for m_ in walk(e0):
                 if m_.get("kind") == "CallExpr" and any(strip(a).get("kind") == "UnaryOperator" and strip(a).get("opcode") == "&" and
                                                       ref_name(kids(strip(a))[0]) == self.var for a in call_args(m_)):
                     s = True
+                    self.nwrite += 1
                 if m_.get("kind") == "BinaryOperator" and m_.get("opcode") == "=" and ref_name(kids(m_)[0]) == self.var:
                     s = True
+                    self.nwrite += 1
             for m_ in walk(e0):
                 if m_.get("kind") == "CompoundAssignOperator" and m_.get("opcode") == "+=" and ref_name(kids(m_)[1]) == self.var:
                     self.nsum += 1
                     if not s:
                         self.viol.append(m_)
             return s
-        def assume(self, e, t, s): return s
+        def assume(self, e, t, s):
+            k_ = expr_str(strip(e))
+            if k_ in self.fixed and self.fixed[k_] != t:
+                return None
+            return s
         def ret(self, n, s): pass
+
+    def _invariant_conditions(lp):
+        """conditions of if-statements / conditional expressions in the loop that read nothing the loop writes and call nothing"""
+        written = set()
+        for m_ in walk(lp):
+            if m_.get("kind") in ("BinaryOperator", "CompoundAssignOperator") and m_.get("opcode", "").endswith("=") and m_.get("opcode") not in ("==", "!=", "<=", ">="):
+                written.add(EFF.lvalue_root(strip(kids(m_)[0]))[0])
+            if m_.get("kind") == "UnaryOperator" and m_.get("opcode") in ("++", "--", "&"):
+                written.add(EFF.lvalue_root(strip(kids(m_)[0], casts=True))[0])
+        out = []
+        for m_ in walk(lp):
+            if m_.get("kind") in ("IfStmt", "ConditionalOperator") and kids(m_):
+                c_ = strip(kids(m_)[0])
+                while c_.get("kind") == "UnaryOperator" and c_.get("opcode") == "!":
+                    c_ = strip(kids(c_)[0])
+                if any(x.get("kind") == "CallExpr" for x in walk(c_)):
+                    continue
+                roots = {ref_name(x) for x in walk(c_) if x.get("kind") == "DeclRefExpr"}
+                if roots and not (roots & written) and expr_str(c_) not in out:
+                    out.append(expr_str(c_))
+        return out[:3]
+    import itertools
     for lp in [x for fn in sorted(reach) for x in walk(prog.body(tf[fn]))]:
         if lp.get("kind") in ("WhileStmt", "ForStmt", "DoStmt"):
             addr_vars = {ref_name(kids(strip(a))[0]) for c in walk(lp) if c.get("kind") == "CallExpr" and "counting" in (callee_name(c) or "")
                          for a in call_args(c) if strip(a).get("kind") == "UnaryOperator" and strip(a).get("opcode") == "&"}
             for v in sorted(x for x in addr_vars if x):
-                dom = _Fresh(v)
-                Flow(dom).stmt(kids(lp)[-1], False)
+                # one world per valuation of the conditions that cannot change while the loop runs; in a world in which the count is
+                # never written at all it still holds its initial value, and adding that is not adding a stale count
+                inv = _invariant_conditions(lp)
+                doms = []
+                for vals in itertools.product((True, False), repeat=len(inv)):
+                    d_ = _Fresh(v, dict(zip(inv, vals)))
+                    Flow(d_).stmt(kids(lp)[-1], False)
+                    if d_.nwrite:
+                        doms.append(d_)
+                if not doms:
+                    continue
+                dom = max(doms, key=lambda d_: len(d_.viol))
+                dom.nsum = max(d_.nsum for d_ in doms)
                 if dom.nsum:
                     chk.require(not dom.viol, "COUNTSUM", "COUNTSUM/%s" % v, loc_str(dom.viol[0]) if dom.viol else loc_str(lp),
                                 "inside the input loop the per-line count %s is added to the total only on paths that made the counting call for that line" % v,
@@ -537,20 +598,60 @@ def wide_pointer_rule(chk, prog, rule="WIDEPTR"):
             chk.require(tsz <= osz, rule, key, loc_str(m),
                         "a pointer to %s is made to point at an object at least as large" % to,
                         "%s has %d bytes, a store through the pointer writes %d" % (expr_str(obj), osz, tsz))
-    chk.floor("pointer casts of object addresses", n, 3)
+    chk.analysed["pointer_casts_of_object_addresses"] = n       # may legitimately be none (flag targets declared int)
     return n
 
 
+_PROG = [None]
+
+
+def _parses_optarg(e, depth=0):
+    """is the expression atoi/strtol(optarg), directly or through a tool helper that returns the conversion of the argument it is
+    given (`parse_boundary_arg(optarg, msg)` returning `atoi(arg)` or a local that received it)"""
+    r = strip(e, casts=True)
+    if r.get("kind") != "CallExpr" or not call_args(r):
+        return False
+    if callee_name(r) in ("atoi", "strtol", "atol", "strtoul"):
+        return "optarg" in expr_str(call_args(r)[0])
+    prog = _PROG[0]
+    g = tool_functions(prog).get(callee_name(r)) if prog is not None else None
+    if g is None or depth > 2:
+        return False
+    idx = [i for i, a in enumerate(call_args(r)) if "optarg" in expr_str(a)]
+    ps = prog.params(g)
+    if len(idx) != 1 or idx[0] >= len(ps):
+        return False
+    pn = ps[idx[0]]["name"]
+
+    def conv_of_param(x):
+        x = strip(x, casts=True)
+        return x.get("kind") == "CallExpr" and callee_name(x) in ("atoi", "strtol", "atol", "strtoul") and call_args(x) and \
+            ref_name(strip(call_args(x)[0], casts=True)) == pn
+    rets = [m for m in walk(prog.body(g)) if m.get("kind") == "ReturnStmt" and kids(m)]
+    if not rets:
+        return False
+    for rt in rets:
+        x = strip(kids(rt)[0], casts=True)
+        if conv_of_param(x):
+            continue
+        nm = ref_name(x) if x.get("kind") == "DeclRefExpr" else None
+        asg = [kids(m)[1] for m in walk(prog.body(g)) if m.get("kind") == "BinaryOperator" and m.get("opcode") == "=" and
+               ref_name(strip(kids(m)[0], casts=True)) == nm] if nm else []
+        if not asg or not all(conv_of_param(y) for y in asg):
+            return False
+    return True
+
+
 def _is_parsed_number(f, e):
-    """e is a local that receives atoi/strtol(optarg) somewhere in f"""
+    """e is atoi/strtol(optarg) (possibly through a tool helper), or a local that receives it somewhere in f"""
+    if _parses_optarg(e):
+        return True
     nm = ref_name(e)
     if not nm:
         return False
     for m in walk(f):
         if m.get("kind") == "BinaryOperator" and m.get("opcode") == "=" and ref_name(kids(m)[0]) == nm:
-            r = strip(kids(m)[1], casts=True)
-            if r.get("kind") == "CallExpr" and callee_name(r) in ("atoi", "strtol", "atol", "strtoul") and \
-                    "optarg" in expr_str(call_args(r)[0]):
+            if _parses_optarg(kids(m)[1]):
                 return True
     return False
 
